@@ -91,7 +91,7 @@ package bip39
 //@ invariant [C02,C03,C08,C12] czech-map: implies(done(czechOnce), isInverse(czechMapping, Czech))
 //@ invariant [C02,C03,C08,C12] portuguese-map: implies(done(portugueseOnce), isInverse(portugueseMapping, Portuguese))
 
-//@ func Language.mapping$1
+//@ func Language.mapping$writes(chineseSimplifiedMapping)
 //@   assigns chineseSimplifiedMapping
 //@   ensures [C02,C03,C08,C13] built: isInverse(chineseSimplifiedMapping, ChineseSimplified) && fresh(chineseSimplifiedMapping)
 //@   loop 1 assigns MDom[chineseSimplifiedMapping], MVal[chineseSimplifiedMapping]
@@ -99,7 +99,7 @@ package bip39
 //@   loop 1 invariant prefix: prefixInverse(chineseSimplifiedMapping, ChineseSimplified, rangeindex+1)
 //@   loop 1 decreases 2048 - rangeindex
 
-//@ func Language.mapping$2
+//@ func Language.mapping$writes(chineseTraditionalMapping)
 //@   assigns chineseTraditionalMapping
 //@   ensures [C02,C03,C08,C13] built: isInverse(chineseTraditionalMapping, ChineseTraditional) && fresh(chineseTraditionalMapping)
 //@   loop 1 assigns MDom[chineseTraditionalMapping], MVal[chineseTraditionalMapping]
@@ -107,7 +107,7 @@ package bip39
 //@   loop 1 invariant prefix: prefixInverse(chineseTraditionalMapping, ChineseTraditional, rangeindex+1)
 //@   loop 1 decreases 2048 - rangeindex
 
-//@ func Language.mapping$3
+//@ func Language.mapping$writes(englishMapping)
 //@   assigns englishMapping
 //@   ensures [C02,C03,C08,C13] built: isInverse(englishMapping, English) && fresh(englishMapping)
 //@   loop 1 assigns MDom[englishMapping], MVal[englishMapping]
@@ -115,7 +115,7 @@ package bip39
 //@   loop 1 invariant prefix: prefixInverse(englishMapping, English, rangeindex+1)
 //@   loop 1 decreases 2048 - rangeindex
 
-//@ func Language.mapping$4
+//@ func Language.mapping$writes(frenchMapping)
 //@   assigns frenchMapping
 //@   ensures [C02,C03,C08,C13] built: isInverse(frenchMapping, French) && fresh(frenchMapping)
 //@   loop 1 assigns MDom[frenchMapping], MVal[frenchMapping]
@@ -123,7 +123,7 @@ package bip39
 //@   loop 1 invariant prefix: prefixInverse(frenchMapping, French, rangeindex+1)
 //@   loop 1 decreases 2048 - rangeindex
 
-//@ func Language.mapping$5
+//@ func Language.mapping$writes(italianMapping)
 //@   assigns italianMapping
 //@   ensures [C02,C03,C08,C13] built: isInverse(italianMapping, Italian) && fresh(italianMapping)
 //@   loop 1 assigns MDom[italianMapping], MVal[italianMapping]
@@ -131,7 +131,7 @@ package bip39
 //@   loop 1 invariant prefix: prefixInverse(italianMapping, Italian, rangeindex+1)
 //@   loop 1 decreases 2048 - rangeindex
 
-//@ func Language.mapping$6
+//@ func Language.mapping$writes(japaneseMapping)
 //@   assigns japaneseMapping
 //@   ensures [C02,C03,C08,C13] built: isInverse(japaneseMapping, Japanese) && fresh(japaneseMapping)
 //@   loop 1 assigns MDom[japaneseMapping], MVal[japaneseMapping]
@@ -139,7 +139,7 @@ package bip39
 //@   loop 1 invariant prefix: prefixInverse(japaneseMapping, Japanese, rangeindex+1)
 //@   loop 1 decreases 2048 - rangeindex
 
-//@ func Language.mapping$7
+//@ func Language.mapping$writes(spanishMapping)
 //@   assigns spanishMapping
 //@   ensures [C02,C03,C08,C13] built: isInverse(spanishMapping, Spanish) && fresh(spanishMapping)
 //@   loop 1 assigns MDom[spanishMapping], MVal[spanishMapping]
@@ -147,7 +147,7 @@ package bip39
 //@   loop 1 invariant prefix: prefixInverse(spanishMapping, Spanish, rangeindex+1)
 //@   loop 1 decreases 2048 - rangeindex
 
-//@ func Language.mapping$8
+//@ func Language.mapping$writes(koreanMapping)
 //@   assigns koreanMapping
 //@   ensures [C02,C03,C08,C13] built: isInverse(koreanMapping, Korean) && fresh(koreanMapping)
 //@   loop 1 assigns MDom[koreanMapping], MVal[koreanMapping]
@@ -155,7 +155,7 @@ package bip39
 //@   loop 1 invariant prefix: prefixInverse(koreanMapping, Korean, rangeindex+1)
 //@   loop 1 decreases 2048 - rangeindex
 
-//@ func Language.mapping$9
+//@ func Language.mapping$writes(czechMapping)
 //@   assigns czechMapping
 //@   ensures [C02,C03,C08,C13] built: isInverse(czechMapping, Czech) && fresh(czechMapping)
 //@   loop 1 assigns MDom[czechMapping], MVal[czechMapping]
@@ -163,7 +163,7 @@ package bip39
 //@   loop 1 invariant prefix: prefixInverse(czechMapping, Czech, rangeindex+1)
 //@   loop 1 decreases 2048 - rangeindex
 
-//@ func Language.mapping$10
+//@ func Language.mapping$writes(portugueseMapping)
 //@   assigns portugueseMapping
 //@   ensures [C02,C03,C08,C13] built: isInverse(portugueseMapping, Portuguese) && fresh(portugueseMapping)
 //@   loop 1 assigns MDom[portugueseMapping], MVal[portugueseMapping]
